@@ -542,6 +542,7 @@ impl Clone for %s {
         txt = self.r22_range_bounds(txt)
         txt = self.r23_deref_patterns(txt)
         txt = self.r24_take_while_map(txt)
+        txt = self.r26_btree_next_after(txt)
         return txt
 
     def r22_range_bounds(self, txt):
@@ -562,6 +563,16 @@ impl Clone for %s {
             self.rules.hit('R22')
             return 'crate::vshim::size_hint(&%s)' % m.group(1)
         return re.sub(r'\b([a-z_][a-z0-9_]*)\.size_hint\(\)', rep3, txt)
+
+    def r26_btree_next_after(self, txt):
+        # R26: `SET.range((Excluded(K), Unbounded)).next()` -> `vshim::btree_next_after(&SET, K)`: BTreeSet::range is generic over
+        # `K: ?Sized, T: Borrow<K>, R: RangeBounds<K>` (no assumed contract expressible) and returns an adapter type; the shim holds the
+        # std expression and is assumed to return the least tracked element whose number exceeds K
+        def rep(m):
+            self.rules.hit('R26')
+            recv = re.sub(r'\s+', '', m.group(1))
+            return 'crate::vshim::btree_next_after(&%s, %s)' % (recv, m.group(2).strip()) + '\n' * m.group(0).count('\n')
+        return re.sub(r'((?:self\s*\.\s*)?[a-z_][a-z0-9_]*)\s*\.range\(\(Excluded\(([^()]*)\),\s*Unbounded\)\)\s*\.next\(\)', rep, txt)
 
     def r23_deref_patterns(self, txt):
         # R23: a reference pattern binding a Copy value in a match arm, `PATH(&NAME) => {` -> `PATH(NAME__verif_ref) => { let NAME = *NAME__verif_ref;`
